@@ -340,6 +340,102 @@ def owners(prog, fn, allowed, _seen=None):
     return out
 
 
+SER_CALLS = ('toml::to_string', 'toml::to_string_pretty', 'toml::ser::to_string')
+
+
+def writer_contract(prog, sl, E, w, path_idx=None, strict=False):
+    """w is a TOML file writer: one file WRITE on every success path, at a path parameter (parameter path_idx when
+    given), of toml::to_string(<another parameter>)? — whether spelled fs::write(path, s) or
+    File::create(path)?.write_all(s.as_bytes()), `?` / match / map_err, directly or with the serialising / the writing
+    half in a private helper — with the result of the write propagated.  strict: additionally no other file system
+    mutation on any path and exactly one serialising call site within reach"""
+    from .lib.discard import result_fates, verdict
+    fw = [e for e in E.expand(w, 'must') if e.kind == 'WRITE']
+    if len(fw) != 1 or len(fw[0].args or ()) < 2:
+        return False
+    e = fw[0]
+
+    def text_of(dv):
+        while dv[0] == 'call' and dv[1].endswith(('::as_bytes', '::as_str', '::as_ref')) and dv[2]:
+            dv = dv[2][0]
+        return dv
+    dv = text_of(e.args[1])
+    if not (dv[0] == 'unwrap' and strip(dv)[0] == 'call' and strip(dv)[1] == 'toml::to_string'):
+        # the text computed by a private helper (`fn toml_text(v) -> Result<String, _>`): what that helper returns
+        dv = text_of(sl.inline_deep(e.args[1]))
+    top = e.chain[0] if e.chain else e.call
+    if not (dv[0] == 'unwrap' and strip(dv)[0] == 'call' and strip(dv)[1] == 'toml::to_string' and len(strip(dv)[2]) == 1):
+        return False
+    val, path = strip(strip(dv)[2][0]), strip(e.path)
+    if val[0] != 'param' or path[0] != 'param' or val[1] != w.path or path[1] != w.path or val[2] == path[2]:
+        return False
+    if path_idx is not None and path[2] != path_idx:
+        return False
+    if verdict(result_fates(prog, top.fn, top.call if hasattr(top, 'call') else top)) != 'ok':
+        return False
+    if strict:
+        from .lib.effects import MUTATING
+        if any(x[0] == 'updated' for x in walk(dv)):
+            return False    # the value is modified between the parameter and the serialising call
+        may = [x for x in E.expand(w, 'may') if x.kind in MUTATING]
+        fns = dict(prog.reach([w]))
+        fns[w.path] = w
+        for g in list(fns.values()):
+            for cl in prog.closures_of(g):
+                fns[cl.path] = cl
+        sites = [c for g in fns.values() for c in g.calls if c.is_(*SER_CALLS)]
+        if len(may) != 1 or may[0].call is not e.call or len(sites) != 1:
+            return False
+    return True
+
+
+def toml_writers(prog, sl, E, allowed, crates=('libcnb', 'libcnb_common')):
+    """(the functions the TOML serialising call sites are attributable to, the additional writers among them).
+    A serialising call inside a private helper / closure belongs to the public functions it is reachable from — unless
+    a function on the way up is itself a writer in the sense of `writer_contract` (strict): a second spelling of
+    write_toml_file (inlined next to its callers, say) produces the same bytes under the same error discipline, and its
+    callers then use *a* checked writer exactly as the callers of write_toml_file do"""
+    memo = {}
+    extra = set()
+
+    def is_writer(g):
+        if g.path not in memo:
+            memo[g.path] = writer_contract(prog, sl, E, g, strict=True)
+        return memo[g.path]
+
+    def attribute(fn, seen):
+        """`owners`, stopping at functions that meet the writer contract"""
+        while fn is not None and fn.kind == 'Closure' and fn.path not in allowed:
+            fn = prog.fns.get(fn.parent)
+        if fn is None:
+            return set()
+        if fn.path in allowed:
+            return {fn.path}
+        if fn.path in seen:
+            return set()
+        seen.add(fn.path)
+        if is_writer(fn):
+            extra.add(fn.path)
+            return set()
+        if fn.vis == 'pub':
+            return {fn.path}
+        cs = [c for c in prog.callers().get(fn.path, []) if c.fn.path != fn.path]
+        if not cs:
+            return {fn.path}
+        out = set()
+        for c in cs:
+            out |= attribute(c.fn, seen)
+        return out
+    users = set()
+    for f in prog.fns.values():
+        if f.crate not in crates or f.path.startswith('libcnb::tracing'):
+            continue
+        for c in f.calls:
+            if c.is_(*SER_CALLS):
+                users |= attribute(f, set())
+    return sorted(users), sorted(extra)
+
+
 def fd_effects(prog, sl, fn):
     """(raw fds opened on every path of fn, raw fds opened on some path) — through private helpers, arguments substituted"""
     names = set()
@@ -868,6 +964,34 @@ NEWTYPE_CONTENT = {
 }
 
 
+def find_ser_impl(prog, t):
+    """the Serialize::serialize of type t, derived (`<mod>::_::<impl ..Serialize for T>::serialize`) or hand-written
+    (`<T as ..Serialize>::serialize`): which of the two wrote the impl is not an obligation, what it calls is"""
+    from .lib import serde_schema as S
+    fs = S._find(prog, r"Serialize for %s>::serialize$" % S._ty_rx(t))
+    if not fs:
+        fs = S._find(prog, r"^<%s as (?:[\w:]+::)?Serialize>::serialize$" % S._ty_rx(t))
+    return fs
+
+
+def ser_struct(prog, sl, t):
+    """serde_schema.ser_struct, also for a hand-written `impl Serialize for T` (read the same way: the keys are the
+    constants handed to serialize_field / serialize_entry, the skip predicates the guards of those calls)"""
+    from .lib import serde_schema as S
+    se = S.ser_struct(prog, sl, t)
+    if se is not None:
+        return se
+    fs = find_ser_impl(prog, t)
+    if len(fs) != 1:
+        return None
+    orig = S._find
+    S._find = lambda prog_, rx: fs if rx.startswith('Serialize for ') else orig(prog_, rx)
+    try:
+        return S.ser_struct(prog, sl, t)
+    finally:
+        S._find = orig
+
+
 def r1_shapes(prog, sl, rep):
     """single-field wrapper types are written as their content (serde newtype / transparent), and a `serialize_with`
     function writes the Display text of the field it is given, unmodified"""
@@ -875,7 +999,7 @@ def r1_shapes(prog, sl, rep):
     for t, what in NEWTYPES.items():
         a = prog.adts.get(t)
         where = '%s:%s' % (a['file'], a['line']) if a else '-'
-        fs = S._find(prog, r"Serialize for %s>::serialize$" % S._ty_rx(t))
+        fs = find_ser_impl(prog, t)
         if len(fs) != 1 or a is None:
             rep.unproven('R1', 'newtype/' + t, where, 'Serialize impl not found')
             continue
@@ -934,7 +1058,7 @@ def r2_readback(prog, sl, rep, types):
     """a type libcnb also reads back accepts every key it writes, for the same field"""
     from .lib import serde_schema as S
     for t in types:
-        se, de = S.ser_struct(prog, sl, t), S.deser_struct(prog, sl, t)
+        se, de = ser_struct(prog, sl, t), S.deser_struct(prog, sl, t)
         if se is None or de is None or de['kind'] != 'struct' or se['kind'] != 'struct':
             continue
         a = prog.adts.get(t)
